@@ -51,8 +51,9 @@ class DenseTimeInterpreter(TimeInterpreter):
         try:
             b = b * self.ast.U[b_unit] / self.ast.U[self.ast.unit]
             e = e * self.ast.U[e_unit] / self.ast.U[self.ast.unit]
-            b = int(b) if b == int(b) else float(b)
-            e = int(e) if e == int(e) else float(e)
+            # (float() raises OverflowError on a bound beyond the floats, integral or not)
+            b = int(b) if float(b) is not None and b == int(b) else float(b)
+            e = int(e) if float(e) is not None and e == int(e) else float(e)
         except OverflowError:
             raise RTAMTException('The operator bound is too large for a time stamp')
 
